@@ -35,12 +35,12 @@ def run(ctx):
     trace = os.path.join(wd, "fault.ndjson")
     s = vlib.harness(ctx, "fault_drive", [em["out"], trace, "1" if quick else "4"], env={"VERIF_SHIM": so}, timeout=7200)
     os.remove(em["out"])
+    vlib.take_summary(ctx, s, "fault_drive")
     if s["extra"]["injection_points"] < 1000:
         raise vlib.ToolError(f"too few injection points: {s['extra']}")
     for need in ("open", "write", "mkdir", "unlink", "rmdir", "read", "opendir", "chmod"):
-        if s["extra"]["per_call"].get(need, 0) == 0:
+        if s["extra"]["per_call"].get(need, 0) == 0 and not s["mismatches"]:
             raise vlib.ToolError(f"the shim never saw a {need} call: interposition is broken")
-    vlib.take_summary(ctx, s, "fault_drive")
     r = vlib.tlc(ctx, "FaultWrap.tla", "FaultWrap_trace.cfg", "trace", workers=1, env=dict(TRACE_ENV, TRACE=trace), timeout=1800, heap="6g")
     if not r["ok"]:
         at = None
